@@ -16,6 +16,7 @@ import (
 
 	"go.uber.org/zap"
 	"go.uber.org/zap/zapcore"
+	"go.uber.org/zap/zapgrpc"
 	"go.uber.org/zap/zaptest/observer"
 )
 
@@ -392,8 +393,23 @@ func c14Logger(min int, dev bool, nctx int) (*zap.SugaredLogger, *observer.Obser
 	return base.Sugar(), logs
 }
 
+// c14GrpcAlias: the println-style methods of the zapgrpc front end format their arguments themselves (fmt.Sprintln minus the
+// one newline Sprintln adds) and hand the text to the SugaredLogger: the message must be the one SugaredLogger.Xln logs
+var c14GrpcAlias = map[string]string{"grpc.Infoln": "Infoln", "grpc.Warningln": "Warnln", "grpc.Errorln": "Errorln"}
+
 func c14Call(s *zap.SugaredLogger, m string, lvl int, msg string, args []any) (child *zap.SugaredLogger) {
 	l := zapcore.Level(lvl)
+	switch m {
+	case "grpc.Infoln":
+		zapgrpc.NewLogger(s.Desugar()).Infoln(args...)
+		return nil
+	case "grpc.Warningln":
+		zapgrpc.NewLogger(s.Desugar()).Warningln(args...)
+		return nil
+	case "grpc.Errorln":
+		zapgrpc.NewLogger(s.Desugar()).Errorln(args...)
+		return nil
+	}
 	switch m {
 	case "With":
 		return s.With(args...)
@@ -473,6 +489,9 @@ var c14NamedLevel = map[string]int{"Debug": -1, "Info": 0, "Warn": 1, "Error": 2
 
 // c14MethodLevel: the level a method logs at (lvl for the Log* family).
 func c14MethodLevel(m string, lvl int) int {
+	if a, ok := c14GrpcAlias[m]; ok {
+		m = a
+	}
 	for _, suf := range []string{"", "ln", "w", "f"} {
 		if strings.HasSuffix(m, suf) {
 			if l, ok := c14NamedLevel[strings.TrimSuffix(m, suf)]; ok {
@@ -1141,6 +1160,9 @@ func c14Gen(r *Rand, tier string, emit func(op any)) {
 		{{T: "e", VK: "errpanic", Tok: c14H("err")}}, {{T: "e", VK: "errfmt", Tok: c14H("f")}, sArg("tail")},
 		{sArg("head"), {T: "e", VK: "errpanic", Tok: c14H("q")}}}
 	gi := 0
+	for i, args := range special {
+		emitMsg([]string{"grpc.Infoln", "grpc.Warningln", "grpc.Errorln"}[i%3], "", args)
+	}
 	for _, args := range special {
 		for _, fam := range []string{"", "ln", "f"} {
 			tpls := []string{""}
